@@ -1181,6 +1181,7 @@ def tab_cli_distinct_outputs(run, pc, R="TAB-cli"):
                 out.append(b)
         return out
     gated = False
+    cmp_blocks = set()
     gates = gate_blocks(pc)
     for f in cands:
         for bi, t in f.calls():
@@ -1191,11 +1192,32 @@ def tab_cli_distinct_outputs(run, pc, R="TAB-cli"):
                 continue
             if f is pc:
                 gated = gated or any(pc.edge_dominates(g, e, bi) for g in gates for e in pc.succs(g) if g != bi)
+                cmp_blocks.add(bi)
             else:
                 # the comparison sits in a helper: the call of that helper in parse_command is gated
                 for b2, t2 in pc.calls():
+                    if (t2.get("resolved") or "") == f.id:
+                        cmp_blocks.add(b2)
                     if (t2.get("resolved") or "") == f.id and any(pc.edge_dominates(g, e, b2) for g in gates for e in pc.succs(g) if g != b2):
                         gated = True
+    # the names compared are the final ones: no store to a group's `output_filename` (the derived default name) can follow the
+    # comparison - compared before the defaults are filled in, two groups that derive the same name pass and overwrite each other
+    writers = set()
+    for bi, si, st in pc.stmts():
+        if st["k"] == "assign" and st["place"]["p"] and any(isinstance(pr, dict) and pr.get("name") == "output_filename" for pr in st["place"]["p"]):
+            writers.add(bi)
+    late = set()
+    for cb in cmp_blocks:
+        seen_, work_ = set(), list(pc.succs(cb))
+        while work_:
+            x_ = work_.pop()
+            if x_ in seen_ or pc.blocks[x_]["cleanup"]:
+                continue
+            seen_.add(x_)
+            work_.extend(pc.succs(x_))
+        late |= (seen_ & writers)
+    run.check((not ok) or (bool(writers) and not late), R, R + "|groups|distinct-files-final-names", pc.loc(), "output names are compared after every name was settled (%d store(s) to output_filename, none can follow the comparison)" % len(writers),
+              "parse_command compares the groups' file names and assigns output_filename afterwards (line(s) %s): two groups whose names are both derived (`prog.asm -f hexdump -- -f annotated`, both prog.txt) pass the comparison and the second overwrites the first, exit 0" % sorted({pc.blocks[b]["term"].get("span", {}).get("line") for b in late}))
     run.check((not ok) or gated, R, R + "|groups|distinct-files-not-for-help", pc.loc(), "the duplicate-output rejection is not consulted when only the help or version text is asked for",
               "parse_command rejects output groups that share a file name also when `-h` or `-v` is given: `customasm -v -f annotated -- -f symbols` prints `multiple output groups write to ...` instead of the version")
     run.check(ok, R, R + "|groups|distinct-files", pc.loc(), "two output groups naming the same file are reported and rejected",
@@ -1684,6 +1706,34 @@ def fmt_profile(run):
             else:
                 run.ok(R, key + "|%d" % st["span"]["line"] if False else key, f.loc(st["span"]), "%s: end-of-data test compares a plain position with len()" % f.id)
     run.floor(R, "end-of-data tests in formatters", n, 8)
+    # a count of whole granules (len / granule, rounded down) is not an end bound: the last, partial granule lies beyond it.  The
+    # tree uses such a quotient only inside the round-up idiom `len / g + (if len % g == 0 {0} else {1})`; compared directly with
+    # a position it cuts the trailing bits off
+    from rules_sym import deep as _deep2
+    nq = 0
+    for f in prog.real_fns():
+        root = f.raw.get("root") or f.id
+        if "bitvec_format" not in root:
+            continue
+        quots = {}
+        for bi, si, st in f.stmts():
+            if st["k"] == "assign" and st["rv"]["k"] == "binop" and st["rv"]["op"] in ("Div", "Shr") and not st["place"]["p"]:
+                try:
+                    le = str(_deep2(f, st["rv"]["l"], 3))
+                except Exception:
+                    continue
+                if re.fullmatch(r"(P1\.len|BitVec::len\(P1\))", le):
+                    quots[f.copy_root(st["place"]["l"])] = st
+        nq += len(quots)
+        for bi, si, st in f.stmts():
+            if st["k"] == "assign" and st["rv"]["k"] == "binop" and st["rv"]["op"] in ("Lt", "Le", "Gt", "Ge", "Eq", "Ne"):
+                for x in (st["rv"]["l"], st["rv"]["r"]):
+                    xl = op_local(x)
+                    if xl is not None and f.copy_root(xl) in quots:
+                        run.violation(R, "%s|end-test|rounded-down|%s" % (R, f.id), f.loc(st["span"]),
+                                      "%s compares a position with the number of *whole* granules in the output (len / granule, rounded down, computed at line %s): when the length is not a multiple of the granule, the trailing bits are treated as beyond the end and dropped from the output" % (f.id, quots[f.copy_root(xl)]["span"]["line"]))
+    run.check(nq >= 3, R, R + "|end-test|rounded-down|floor", "-", "rounded-down granule counts in the formatters: %d, none is compared with a position" % nq,
+              "rounded-down granule counts in the formatters: found %d, 3 were confirmed by hand (anchor lost?)" % nq)
 
 
 def bit_source(run, R="TAB-fmt"):
